@@ -11,12 +11,12 @@ from .base import Result, V
 from . import simcommon as SC
 from .c07 import dev
 
-MODULES = ['TickitModel.Props.C15', 'TickitModel.Props.C01']
-THEOREMS = ['topic_injective', 'topic_in_ne_out', 'progress', 'within_extent']
+MODULES = ['TickitModel.Props.C10', 'TickitModel.Props.C15', 'TickitModel.Props.C01']
+THEOREMS = ['part_tick_same', 'whole_never_stalls', 'extent_stays_inside', 'isPart_append', 'topic_injective', 'topic_in_ne_out', 'within_extent']
 ANCHORS = ["src/tickit/utils/topic_naming.py", "src/tickit/core/management/schedulers/nested.py", "src/tickit/core/management/schedulers/base.py",
            "src/tickit/core/state_interfaces/internal.py", "src/tickit/adapters/epics.py", "src/tickit/core/components/device_component.py"]
 TECHNIQUE = 'Lean 4 theorems (distinct components never share a topic - over constants regenerated from the code; a tick touches only the extent of its roots and never stalls on an acyclic wiring; projection of a tick onto a disconnected part) + differential runs of the real code: configuration vs configuration extended by a disconnected part, incl. the shipped EPICS and command adapter classes'
-LEVEL_TEXT = "PARTIAL. Proved: input/output topics of distinct components are pairwise distinct (so traffic of one component is never delivered to another), over affixes re-extracted from topic_naming.py on every run; a tick dispatches only members of the extent of its roots and, on an acyclic wiring, always has a pending dispatch until it finishes (an extra disconnected part cannot stall it). The projection theorem (a part that no wire connects to the rest receives the same dispatches with or without the rest; Props/C10.lean) is registered as an obligation once its proof is complete (see DESIGN.md). Validation: each base configuration is run alone and extended by a periodic device, a chain, a sibling system, a depth-2 system, a device with the shipped EpicsAdapter, a device with a CommandAdapter subclass and a disconnected device inside one of its own systems, under two buses: the base part's observation sequences, adapter notification logs and EPICS record refreshes must be identical and the run must not stall; every adapter is notified exactly once per update of its own device."
+LEVEL_TEXT = "Proved over the ticker model, for every wiring, reaction function and pair of answer orders: if no wire connects a set A of components to the rest, every component of A receives in a complete tick of the whole simulation exactly the dispatch it receives in the same tick of A alone (rank induction; the rest may do anything) - adding or removing a disconnected device, chain or system changes nothing for A; roots inside A never drag in anything outside A; the union of two well-formed wirings over disjoint components has each as such a part (so the hypothesis is satisfiable in general); the whole never stalls on an acyclic wiring; input/output topics of distinct components are pairwise distinct, over affixes re-extracted from topic_naming.py on every run. PARTIAL: multi-tick histories with interrupt stamps (the 1-ns floor effect of non-integral elapsed*speed) and adapter notifications are validated, not proved: each base configuration is run alone and extended by a periodic device, a chain, a sibling system, a depth-2 system, a device with the shipped EpicsAdapter, a device with a CommandAdapter subclass and a disconnected device inside one of its own systems, under two buses: the base part's observation sequences, adapter notification logs and EPICS record refreshes must be identical and the run must not stall; every adapter is notified exactly once per update of its own device."
 LEVEL_NOTE = 'Trusts: Lean kernel; hand-written models; EPICS/command adapters are driven without a network (record setters are recorders).'
 ASSUMPTIONS = ['the added part shares no wire and no name with the base']
 
